@@ -586,12 +586,22 @@ func undoAssetCode(c *types.ChangeLog, processor types.ChangeLogProcessor) error
 	return accessor.SetAssetCode(hash, oldVal)
 }
 
+// absentProfileValue is the OldVal of a profile change log whose key did not exist before
+type absentProfileValue string
+
 func NewAssetCodeStateLog(address common.Address, processor types.ChangeLogProcessor, code common.Hash, key string, newVal string) (*types.ChangeLog, error) {
 	account := processor.GetAccount(address)
 
-	oldVal, err := account.GetAssetCodeState(code, key)
+	oldStr, err := account.GetAssetCodeState(code, key)
 	if err != nil && err != types.ErrAssetNotExist {
 		return nil, fmt.Errorf("can't create asset code state log: %v", err)
+	}
+	// OldVal is marked if the key is not in the profile, so that undo can remove the key again instead of leaving it with an empty value
+	var oldVal interface{} = oldStr
+	if asset, err := account.GetAssetCode(code); err == nil && asset != nil {
+		if _, exist := asset.Profile[key]; !exist {
+			oldVal = absentProfileValue("")
+		}
 	}
 
 	return &types.ChangeLog{
@@ -624,17 +634,26 @@ func redoAssetCodeState(c *types.ChangeLog, processor types.ChangeLogProcessor) 
 }
 
 func undoAssetCodeState(c *types.ChangeLog, processor types.ChangeLogProcessor) error {
-	oldVal, ok := c.OldVal.(string)
-	if !ok {
-		log.Errorf("undoAssetCodeState expected OldVal string, got %T", c.OldVal)
-		return types.ErrWrongChangeLogData
-	}
 	extra, ok := c.Extra.(*ProfileChangeLogExtra)
 	if !ok {
 		log.Errorf("undoAssetCodeState expected Extra common.Token, got %T", c.Extra)
 		return types.ErrWrongChangeLogData
 	}
 	accessor := processor.GetAccount(c.Address)
+	if _, absent := c.OldVal.(absentProfileValue); absent {
+		// the key was not in the profile. remove it
+		asset, err := accessor.GetAssetCode(extra.UUID)
+		if err != nil {
+			return err
+		}
+		delete(asset.Profile, extra.Key)
+		return accessor.SetAssetCode(extra.UUID, asset)
+	}
+	oldVal, ok := c.OldVal.(string)
+	if !ok {
+		log.Errorf("undoAssetCodeState expected OldVal string, got %T", c.OldVal)
+		return types.ErrWrongChangeLogData
+	}
 	return accessor.SetAssetCodeState(extra.UUID, extra.Key, oldVal)
 }
 
